@@ -50,8 +50,10 @@ func clockSub(prop string) *engine.Sub {
 		Name:   name,
 		Serial: true,
 		Rule:   "E7: every time.Now() of the library is a choice point of the explorer (build overlay: time.Now -> verifshim/clock). Two-link chains, correctly aligned or with one deviation (broken link, wrong subject, wrong first audience, root not issued by its subject), one token (leaf, root or invocation) carrying one bound B (nbf or exp); every sequence of clock readings over {B-1s, B-1ns, B+1ns, B+1s}, starting at each of them - time passing or being stepped back between the readings one check takes; both APIs. C01: a chain with an alignment deviation is never allowed, whatever the clock does. C04: a check none of whose readings lies inside the window is not allowed. C05: a check all of whose readings lie inside the window of a conforming chain is allowed; non-trivial = executions in which two readings differ",
-		Bound:  func(string) string { return "5 deviations x 5 (bound, token) placements x 4 first readings x all reading sequences (4 options per reading) x 2 APIs" },
-		Setup:  func(string) error { chainInit(); return nil },
+		Bound: func(string) string {
+			return "5 deviations x 5 (bound, token) placements x 4 first readings x all reading sequences (4 options per reading) x 2 APIs"
+		},
+		Setup: func(string) error { chainInit(); return nil },
 		Gen: func(tier string, emit func(any) bool) {
 			devs := []string{"none", "link", "subject", "firstAud", "root"}
 			if prop == "C04" || prop == "C05" {
@@ -211,8 +213,10 @@ func clockHistSub(prop string) *engine.Sub {
 		Name:   name,
 		Serial: true,
 		Rule:   "E7: one two-link chain and its invocation, one of the three tokens carrying one bound B (nbf or exp); three authorization checks in a row on the same delegation objects - each with the shared invocation token, a fresh one, or a fresh one that the leaf's policy refuses - while the controlled clock stands at an instant chosen per check from {B-1s, B-1ns, B+1ns, B+1s} (all 64 sequences: time passing, standing still, being stepped back), ExecutionAllowed and ExecutionAllowedWithArgsHook alternating; plus IsValidNow of the bounded token before every check: each verdict is the reference's for the instant of that check (C04: not allowed outside the window; C05: allowed inside); non-trivial = sequences that cross the bound",
-		Bound:  func(string) string { return "5 (bound, token) placements x 64 clock sequences x 27 invocation patterns x 3 checks" },
-		Setup:  func(string) error { chainInit(); return nil },
+		Bound: func(string) string {
+			return "5 (bound, token) placements x 64 clock sequences x 27 invocation patterns x 3 checks"
+		},
+		Setup: func(string) error { chainInit(); return nil },
 		Gen: func(tier string, emit func(any) bool) {
 			for _, bo := range [][2]any{{"nbf", 0}, {"nbf", 1}, {"exp", 0}, {"exp", 1}, {"exp", 2}} {
 				for a := 0; a < 4; a++ {
